@@ -301,15 +301,15 @@ Definition w_vB : list (node * N) := [(1,0);(0,0);(2,0)].
    catches up from node 1 *)
 Definition w_acts_catchup : list action :=
   [AView 0 w_vA; AView 1 w_vB; AView 2 w_vB; AClient 0 10 1 w_yes; AClient 1 20 1 w_yes;
-   ADeliver 3 w_yes true; ADeliver 4 w_yes true; AFinish1 1 20 true; AFinish2 1 20; AWm 1 1; AClient 1 30 1 w_yes;
-   ADeliver 7 w_yes true; ATick 0; ADeliver 9 w_yes true; ADeliver 10 w_yes true;
-   ADeliver 8 w_yes true; ADeliver 12 w_yes true; AFinish1 1 30 true].
+   ADeliver 3 w_yes true seen_exact; ADeliver 4 w_yes true seen_exact; AFinish1 1 20 true; AFinish2 1 20; AWm 1 1; AClient 1 30 1 w_yes;
+   ADeliver 7 w_yes true seen_exact; ATick 0; ADeliver 9 w_yes true seen_exact; ADeliver 10 w_yes true seen_exact;
+   ADeliver 8 w_yes true seen_exact; ADeliver 12 w_yes true seen_exact; AFinish1 1 30 true].
 (* the same start; node 0 restarts and then follows node 1 as a replica *)
 Definition w_acts_hidden : list action :=
   [AView 0 w_vA; AView 1 w_vB; AView 2 w_vB; AClient 0 10 1 w_yes; AClient 1 20 1 w_yes;
-   ADeliver 3 w_yes true; ADeliver 4 w_yes true; AFinish1 1 20 true; AFinish2 1 20; AClient 1 30 1 w_yes;
-   ADeliver 8 w_yes true; ADeliver 9 w_yes true; AFinish1 1 30 true; AFinish2 1 30;
-   ACrash 0 1; AView 0 [(0,1);(1,0);(2,0)]; ADeliver 7 w_yes true; ADeliver 12 w_yes true; ADeliver 13 w_yes true].
+   ADeliver 3 w_yes true seen_exact; ADeliver 4 w_yes true seen_exact; AFinish1 1 20 true; AFinish2 1 20; AClient 1 30 1 w_yes;
+   ADeliver 8 w_yes true seen_exact; ADeliver 9 w_yes true seen_exact; AFinish1 1 30 true; AFinish2 1 30;
+   ACrash 0 1; AView 0 [(0,1);(1,0);(2,0)]; ADeliver 7 w_yes true seen_exact; ADeliver 12 w_yes true seen_exact; ADeliver 13 w_yes true seen_exact].
 
 Lemma orig_catchup_witness :
   let st := g_run (mk_cfg 3 [0;1;2] 4 false) w_acts_catchup in
